@@ -151,6 +151,37 @@ def run(ctx):
                           'without them %r' % (name, n, out, base),
                           {'kind': 'render', 'name': name, 'start': [hex(x) for x in S], 'end': [hex(x) for x in E], 'nested': n})
     ctx.extra['long_windows'] = nlong
+    # RESTARTED operation: START X(A) whose END never reached the dump (record dropped, thread interrupted in the call), later on
+    # the same thread START X(S) .. END X: the call is rendered from the START its END matches - the most recent one - never
+    # from a word of the older START
+    nrestart = 0
+    for name in names_c:
+        S = pr.distinct_words(name, 'start')
+        E = [0] + pr.distinct_words(name, 'end')[1:]
+        base = pr.render(name, S, E, [])
+        if base is None:
+            continue
+        A = [(x * 3 + 0x1111) & 0xffffffff for x in S]
+        w = pr.w
+        stream = [w.sys(name, 1, 1, tuple(A)), w.sys('BSC_getpid', 0, 2), w.sys(name, 1, 1, tuple(S))] + \
+                 ([w.sys('BSC_getpid', 0, 1)] if nrestart % 2 else []) + [w.sys(name, 2, 1, tuple(E))]
+        p_ = new_parser(w)
+        out = None
+        try:
+            for k, a in enumerate(stream, 1):
+                r = p_.feed(w.concrete(a, k))
+                if k == len(stream):
+                    out = None if r is None else str(r)
+        except Exception as ex:
+            out = 'RAISED ' + type(ex).__name__
+        nrestart += 1
+        if out != base:
+            ctx.violation('C09/restarted-operation-rendered-from-older-start@%s' % name,
+                          '%s renders %r; when an earlier START of the same call on the thread (arguments %s) never got its END, '
+                          'it renders %r' % (name, base, [hex(x) for x in A], out),
+                          {'kind': 'render', 'name': name, 'start': [hex(x) for x in S], 'end': [hex(x) for x in E],
+                           'older_start': [hex(x) for x in A]})
+    ctx.extra['restarted_operations'] = nrestart
     nv, rej, _ = validate_observations('Render_Val', obs, ctx.workdir, name='c09val', timeout=3000)
     ctx.traces += nv
     by = {o['id']: o for o in obs}
